@@ -1,5 +1,3 @@
-//go:build !vsreal
-
 // Package c10: handler (and dispatcher) errors reach the caller with message and
 // code intact, after the messages the handler sent; the connection stays usable.
 package c10
